@@ -96,9 +96,12 @@ def stepCase (cfg : Config) (a : Acc) (op : Op) (io : IObs) : Acc :=
 
 /-- `pool <idleTimeout|-> <maxIdle> <cap> ; <op> ; … | <obs> ; …` -/
 def driverLine (inp obs : List String) : Bool × Bool × String × String :=
+  -- a timed case during which the machine stalled measures nothing: skipped
+  if obs == ["unreliable"] then (true, true, "-", "skipped") else
   match splitSemi inp with
-  | [it, mi, cap] :: opToks =>
-    let cfg : Config := { idleTimeout := if it == "-" then none else some (natTok it), maxIdle := natTok mi, cap := cap == "1" }
+  | (it :: mi :: cap :: laxT) :: opToks =>
+    let cfg : Config := { idleTimeout := if it == "-" then none else some (natTok it), maxIdle := natTok mi, cap := cap == "1",
+                          lax := laxT == ["1"] }
     let ops := opToks.filterMap parseOp
     let iobs := (splitSemi obs).filterMap parseIObs
     if ops.length != opToks.length || iobs.length != ops.length then
